@@ -49,6 +49,11 @@ def main():
         lines.append('\nNot claimed (listed under `not_applicable` in MANIFEST.json with the reason): ' + ', '.join(sorted(e['property_id'] if isinstance(e, dict) else e for e in na)) + '.')
     st = lean_stats()
     lines.append('\nLean sources: ' + '; '.join(f'{k} {a} files / {b} lines' for k, (a, b) in st.items()) + ' (generated `Gen/*` files are rebuilt from /repo on every run and are not counted).\n')
+    lines.append('### 11.1a What each check proves and how it is tied (from MANIFEST.json; the plan for each is in section 6)\n')
+    for c in sorted(man.get('checks', []), key=lambda c: c['property_id']):
+        lc = c['level_claimed']
+        note = c.get('level_note', '').split(' Lean 4.33.0 kernel;')[0]
+        lines.append(f"* **{c['property_id']}** ({lc['category']}; {c.get('technique', '')}). {lc['text']} *Limits:* {note}\n")
     lines.append('### 11.2 Detection matrix: seeded changes (each passes sarpy\'s own tests) and the check that reports them\n')
     lines.append('Every change below was written by a fresh sub-agent that saw only the property text, confirmed by `tools/save_seed.py` (demo fails with the change, passes without; '
                  'the named tests pass with it), applied to /repo with `git apply`, checked, and reverted. The patch and the demonstration are in `seeded/<id>/`.\n')
